@@ -58,6 +58,10 @@ func (w *World) initOrbiter(ctx sdk.Context, bz json.RawMessage) (validateOk boo
 		}
 		validateOk = true
 	}()
+	if !validateOk {
+		// a chain does not start from a genesis that validation refuses
+		return
+	}
 	cctx, write := ctx.CacheContext()
 	w.clearOrbiterStore(cctx)
 	func() {
